@@ -289,6 +289,12 @@ func vStubReqSetBody(r *fasthttp.Request, b []byte) { vGhostOf(r).body = vCopy(b
 //verif:replace (*github.com/valyala/fasthttp.Request).IsBodyStream
 func vStubReqIsBodyStream(r *fasthttp.Request) bool { return vGhostOf(r).bodyStream != nil }
 
+//verif:replace (*github.com/valyala/fasthttp.Request).SetBodyStream
+func vStubReqSetBodyStream(r *fasthttp.Request, s io.Reader, size int) {
+	vGhostOf(r).bodyStream = s
+	vGhostOf(&r.Header).contentLength = size
+}
+
 //verif:replace (*github.com/valyala/fasthttp.Request).BodyStream
 func vStubReqBodyStream(r *fasthttp.Request) io.Reader { return vGhostOf(r).bodyStream }
 
